@@ -152,6 +152,11 @@ def _fasta_universe(ctx, cfg, F):
     return dict(pr.peptide_map), dict(pr.shared_peptides), dict(pr.protein_map), ident
 
 
+def _is_result_file(path):
+    import re
+    return re.fullmatch(r"(.*\.)?(targets|decoys)\.[A-Za-z_]+", os.path.basename(str(path))) is not None
+
+
 def sym_confidence_proteins(ctx, cfg):
     """Protein level of the real assign_confidence(proteins=...): peptide-level rows -> picked_protein ->
     proteins file -> q-values -> targets.proteins / decoys.proteins."""
@@ -183,6 +188,7 @@ def sym_confidence_proteins(ctx, cfg):
                   maps=dict(peptide_map=peptide_map, shared=shared, protein_map=protein_map))
     old = sympd.SAMPLE_MODE[0]
     sympd.SAMPLE_MODE[0] = cfg.get("sample", "nondet")
+    before = set(vfs.listing())
     try:
         c03.run_confidence(ctx, cfg, C, [s], [ps], [symnp.SArray([SNum(z) for z in s["score"]], symnp.float64)], None, True, True, True, [None], proteins=prot)
     except Unsupported:
@@ -199,6 +205,9 @@ def sym_confidence_proteins(ctx, cfg):
         sympd.SAMPLE_MODE[0] = old
     tf, dfile = vfs.get("/vfs/out/targets.proteins"), vfs.get("/vfs/out/decoys.proteins")
     props = [("protein_files_written", z3.BoolVal(tf is not None and dfile is not None))]
+    # C09: whatever this run created in the destination directory and is not a result file is an intermediate
+    left = sorted(p for p in set(vfs.listing()) - before if p.startswith("/vfs/out/") and not _is_result_file(p))
+    props.append(("no_intermediate_file_of_this_run_remains: %s" % left, z3.BoolVal(not left)))
     if tf is None or dfile is None:
         return PathOutcome(props, inputs, None)
     cols = ["mokapot protein group", "best peptide", "stripped sequence", "score", "q-value", "posterior_error_prob"]
@@ -388,6 +397,9 @@ def real_conf_proteins(cfg, inp):
             C.peps_from_scores = old
         tf = pd.read_csv(os.path.join(d, "out", "targets.proteins"), sep="\t")
         dfile = pd.read_csv(os.path.join(d, "out", "decoys.proteins"), sep="\t")
+        left = sorted(f for f in os.listdir(os.path.join(d, "out")) if not _is_result_file(f))
+        if left:
+            return dict(violation="after a successful assign_confidence(proteins=...) intermediate files remain in the destination directory: %s" % left)
 
     def strip(x):
         x = re.sub(r"[\[\(].*?[\]\)]", "", x)
